@@ -844,49 +844,60 @@ def _check_rowwise(ctx, case, name, calls, picked_rows):
 
 
 def _check_coupled(ctx, case, name, alg, rec, fcalls, pcalls, adds):
+    """One evaluating() of a coupled algorithm.  The property fixes the OUTCOME (which designs are
+    queried and what reaches the model), not the route: the verdicts (R) are taken against the rule's value
+    table computed here from the state the property names (region diagonals / summed posterior variance
+    of the ACTIVE designs at the moment evaluating() is entered).  The spy on the acquisition object is a
+    cross-check only: if it was consulted its values must equal that table (F); if not, that is counted
+    (`acquisition-bypassed_info`) and nothing is raised."""
     kind = COUPLED[name]
     snap = rec["snap"]
     act = snap["active"]
     q = case["batch"]
-    if not fcalls:
-        _viol(ctx, "no-acquisition", f"{name}: evaluating() did not consult its acquisition function", case, kind="F")
-        return False
-    x0, v0 = fcalls[0]["x"], [float(v) for v in fcalls[0]["v"]]
-    rows = _locate(x0, snap["points"])
-    # ---- the choice set is the active set
-    if sorted(rows) != act:
-        _viol(ctx, "choice-set", f"{name}: the optimiser's choices are not the active designs "
-              f"(S∪P for VOGP/ε-PAL/VOGP_AD, S∪U for the PaVeBa family)", case, kind="F",
-              detail={"choices": rows, "active": act})
-    # ---- recorded values = acquisition definition on the pre-step state
-    defv = _defvals(name, kind, snap, [i for i in rows if i >= 0])
-    if -1 not in rows:
-        for i, a, b in zip(rows, v0, defv):
-            bad = (a != b) if kind == "diag" else not _close(a, b)
-            if bad:
-                _viol(ctx, "acq-value", f"{name}: acquisition value of design {i} differs from its definition on "
-                      "the pre-step state", case, kind="F", detail={"design": i, "seen": a, "definition": b})
+    own = _defvals(name, kind, snap, act)          # the rule's values, position k = design act[k]
+    dv = dict(zip(act, own))
+    consulted = bool(fcalls)
+    rows, v0 = None, None
+    if not consulted:
+        ctx.count("acquisition-bypassed_info")
+    else:
+        x0, v0 = fcalls[0]["x"], [float(v) for v in fcalls[0]["v"]]
+        rows = _locate(x0, snap["points"])
+        # ---- cross-check: the choice set is the active set
+        if sorted(rows) != act:
+            _viol(ctx, "choice-set", f"{name}: the optimiser's choices are not the active designs "
+                  f"(S∪P for VOGP/ε-PAL/VOGP_AD, S∪U for the PaVeBa family)", case, kind="F",
+                  detail={"choices": rows, "active": act})
+        # ---- cross-check: recorded values = acquisition definition on the pre-step state
+        if all(i in dv for i in rows):
+            for i, a_ in zip(rows, v0):
+                b_ = dv[i]
+                bad = (a_ != b_) if kind == "diag" else not _close(a_, b_)
+                if bad:
+                    _viol(ctx, "acq-value", f"{name}: acquisition value of design {i} differs from its definition on "
+                          "the pre-step state", case, kind="F", detail={"design": i, "seen": a_, "definition": b_})
+                    break
+        _check_rowwise(ctx, case, name, fcalls, None)
+    # ---- the own table against the exact Lean definitions
+    if kind == "diag":  # value² vs Σ(u−l)² of the displayed rectangle
+        for i, a_ in zip(act, own):
+            ex = core.parse_q(ctx.ask("diagsq", core.qvec(snap["lower"][i]), core.qvec(snap["upper"][i])))
+            if abs(core.frac(a_) ** 2 - ex) > ex * core.frac(1e-12):
+                _viol(ctx, "acq-value", f"{name}: squared diagonal of design {i} differs from Σ(u−l)² of its "
+                      "displayed region", case, kind="F", detail={"design": i, "seen": a_, "exact_sq": str(ex)})
                 break
-        if kind == "diag":  # exact: value² vs Σ(u−l)² of the displayed rectangle (Lean)
-            for i, a in zip(rows, v0):
-                ex = core.parse_q(ctx.ask("diagsq", core.qvec(snap["lower"][i]), core.qvec(snap["upper"][i])))
-                if abs(core.frac(a) ** 2 - ex) > ex * core.frac(1e-12):
-                    _viol(ctx, "acq-value", f"{name}: squared diagonal of design {i} differs from Σ(u−l)² of its "
-                          "displayed region", case, kind="F", detail={"design": i, "seen": a, "exact_sq": str(ex)})
-                    break
-        else:
-            for i, a in zip(rows[:3], v0[:3]):
-                ex = core.parse_q(ctx.ask("sumvar", core.qmat(snap["cov"][i])))
-                if not _close(a, float(ex)):
-                    _viol(ctx, "acq-value", f"{name}: acquisition value of design {i} is not the trace of its "
-                          "posterior covariance", case, kind="F", detail={"design": i, "seen": a, "trace": float(ex)})
-                    break
-    _check_rowwise(ctx, case, name, fcalls, None)
+    else:
+        for i, a_ in zip(act[:3], own[:3]):
+            ex = core.parse_q(ctx.ask("sumvar", core.qmat(snap["cov"][i])))
+            if not _close(a_, float(ex)):
+                _viol(ctx, "acq-value", f"{name}: trace of the posterior covariance of design {i} differs from the Lean "
+                      "definition", case, kind="F", detail={"design": i, "seen": a_, "trace": float(ex)})
+                break
     # ---- what was asked of the problem
     refined = False
     if name == "VOGP_AD" and not pcalls:
         # the node was refined instead of evaluated: the refined node must be the maximiser
-        gone = sorted(set(snap["S"]) | set(snap["P"]) - set())  # active before
+        gone = sorted(set(snap["S"]) | set(snap["P"]))  # active before
         now = set(rec["S_after"]) | set(rec["P_after"])
         removed = [i for i in gone if i not in now]
         refined = True
@@ -908,78 +919,92 @@ def _check_coupled(ctx, case, name, alg, rec, fcalls, pcalls, adds):
         _viol(ctx, "queried-not-active", f"{name}: a queried design is not active", case,
               detail={"queried": queried, "active": act})
         return False
-    # ---- (R) on the values the optimiser saw: the batch is the optimiser's output for them
-    qeff = min(q, len(rows))
-    pos = _positions(rows, queried)
-    if None in pos:
-        _viol(ctx, "queried-not-a-choice", f"{name}: a queried design was not among the optimiser's choices", case,
-              detail={"queried": queried, "choices": rows})
-        return False
-    vq = [v0[p] for p in pos]
-    # exact, call by call: pick k maximises the values the optimiser was handed in its k-th iteration
-    for k, i in enumerate(queried):
-        if k >= len(fcalls):
-            _viol(ctx, "batch-spec", f"{name}: more designs queried than optimiser iterations", case, kind="F")
-            break
-        rk, vk = _locate(fcalls[k]["x"], snap["points"]), [float(v) for v in fcalls[k]["v"]]
-        if i not in rk:
-            _viol(ctx, "batch-spec", f"{name}: pick {k} (design {i}) was not among the rows of iteration {k} "
-                  "(a design picked twice, or a row that was not a choice)", case,
-                  detail={"iteration_rows": rk, "queried": queried})
-            break
-        pk = rk.index(i)
-        if ctx.ask("specd", core.qvec(vk), "1", str(pk), core.q(vk[pk])) != "ok":
-            _viol(ctx, "batch-spec", f"{name}: pick {k} (design {i}) does not maximise the acquisition values of "
-                  f"iteration {k}", case, detail={"rows": rk, "values": vk, "picked": i})
-            break
-        if k + 1 < len(fcalls) and _locate(fcalls[k + 1]["x"], snap["points"]) != rk[:pk] + rk[pk + 1:]:
-            _viol(ctx, "batch-spec", f"{name}: the picked row was not removed from the choices", case,
-                  detail={"rows": rk, "picked": i, "next_rows": _locate(fcalls[k + 1]["x"], snap["points"])})
-            break
-    spec = ctx.ask("specd", core.qvec(v0), str(1 if refined else qeff), core.nats(pos), core.qvec(vq))
-    if spec != "ok" and _spec_tol(v0, 1 if refined else qeff, pos):
-        # GP posteriors recomputed for a shrunken choice array differ in the last bits: a tie within 1e-9
+    # ---- (R) against the own table: min(q, |active|) distinct active designs, each an arg-max of the rule among
+    #      the active designs not yet in the batch (exact ties either way), hence non-increasing
+    qown = 1 if refined else min(q, len(act))
+    opos = [act.index(i) for i in queried]
+    spec = ctx.ask("specd", core.qvec(own), str(qown), core.nats(opos), core.qvec([own[p] for p in opos]))
+    if spec != "ok" and kind != "diag" and _spec_tol(own, qown, opos):
+        # GP posteriors recomputed for another batch of rows differ in the last bits: a tie within 1e-9
         ctx.count("run_near_tie_info")
     elif spec != "ok":
-        _viol(ctx, "batch-spec", f"{name}: the queried designs are not a batch of {qeff} distinct maximisers of the "
-              "recorded acquisition values in non-increasing order", case,
-              detail={"choices": rows, "values": v0, "queried": queried, "lean": spec})
+        _viol(ctx, "not-maximiser-among-active", f"{name}: the queried designs {queried} are not {qown} distinct active "
+              "designs each maximising the acquisition rule among the active designs not yet in the batch "
+              "(non-increasing order)", case,
+              detail={"queried": queried, "active_values": {str(t): dv[t] for t in act}, "lean": spec})
+    if not consulted:
+        # no acquisition object to cross-check: the Lean step model on the own table (sorted active rows)
+        model = ctx.ask("optd", core.qvec(own), str(qown))
+        if spec == "ok" and not refined and model not in ("err", "bad-op", "empty") and \
+                core.parse_nats(model.split(" ")[0]) == opos:
+            obs = [[] for _ in act]
+            for p_, y in zip(opos, np.asarray(Yq, dtype=float)):
+                obs[p_] = list(y)
+            old, new = snap["data"], rec["after"]
+            ans = ctx.ask("step", str(alg.model.input_dim), core.qmat(snap["points"][act]), core.qvec(own), str(q),
+                          core.qmat(obs), core.qmat(old["X"]), core.qmat(old["Y"]))
+            if ans != core.qmat(Xq) + " " + core.qmat(new["X"]) + " " + core.qmat(new["Y"]):
+                _viol(ctx, "step-model", f"{name}: candidates / training data after the step differ from the "
+                      "Lean model of one evaluating() step", case, kind="F", detail={"lean": ans[:300]})
+            ctx.count("run_step_model_checked")
     else:
-        model = ctx.ask("optd", core.qvec(v0), str(1 if refined else q))
-        if model not in ("err", "bad-op", "empty"):
-            mp = core.parse_nats(model.split(" ")[0])
-            if mp == pos and not refined:
-                # whole step through the Lean model `Acq.evaluatingStep`: candidates and the data afterwards
-                obs = [[] for _ in rows]
-                for p_, y in zip(pos, np.asarray(Yq, dtype=float)):
-                    obs[p_] = list(y)
-                old, new = snap["data"], rec["after"]
-                ans = ctx.ask("step", str(alg.model.input_dim), core.qmat(x0), core.qvec(v0), str(q), core.qmat(obs),
-                              core.qmat(old["X"]), core.qmat(old["Y"]))
-                if ans != core.qmat(Xq) + " " + core.qmat(new["X"]) + " " + core.qmat(new["Y"]):
-                    _viol(ctx, "step-model", f"{name}: candidates / training data after the step differ from the "
-                          "Lean model of one evaluating() step", case, kind="F", detail={"lean": ans[:300]})
-                ctx.count("run_step_model_checked")
-            if mp != pos:
-                if len(set(v0)) == len(v0):
-                    _viol(ctx, "batch-positions", f"{name}: tie-free values but the batch differs from the model's",
-                          case, kind="F", detail={"impl": pos, "model": mp})
-                else:
-                    ctx.count("run_tie_order_differs_info")
-    # ---- (R) on the definition over the TRUE active set: each pick maximal among the remaining active designs
-    dv = dict(zip(act, _defvals(name, kind, snap, act)))
-    remaining = set(act)
-    for k, i in enumerate(queried):
-        if i not in remaining:
-            break
-        best = max(dv[t] for t in remaining)
-        tol = 0.0 if kind == "diag" else 1e-9 * max(1.0, abs(best))
-        if dv[i] < best - tol:
-            _viol(ctx, "not-maximiser-among-active", f"{name}: queried design {i} (pick {k}) does not maximise the "
-                  "acquisition rule among the active designs not yet in the batch", case,
-                  detail={"design": i, "value": dv[i], "best": best, "active_values": {str(t): dv[t] for t in act}})
-            break
-        remaining.discard(i)
+        # ---- cross-check on the values the optimiser saw: the batch is the optimiser's output for them
+        qeff = min(q, len(rows))
+        pos = _positions(rows, queried)
+        if None in pos:
+            _viol(ctx, "queried-not-a-choice", f"{name}: a queried design was not among the optimiser's choices", case,
+                  detail={"queried": queried, "choices": rows})
+            return False
+        vq = [v0[p] for p in pos]
+        # exact, call by call: pick k maximises the values the optimiser was handed in its k-th iteration
+        for k, i in enumerate(queried):
+            if k >= len(fcalls):
+                _viol(ctx, "batch-spec", f"{name}: more designs queried than optimiser iterations", case, kind="F")
+                break
+            rk, vk = _locate(fcalls[k]["x"], snap["points"]), [float(v) for v in fcalls[k]["v"]]
+            if i not in rk:
+                _viol(ctx, "batch-spec", f"{name}: pick {k} (design {i}) was not among the rows of iteration {k} "
+                      "(a design picked twice, or a row that was not a choice)", case,
+                      detail={"iteration_rows": rk, "queried": queried})
+                break
+            pk = rk.index(i)
+            if ctx.ask("specd", core.qvec(vk), "1", str(pk), core.q(vk[pk])) != "ok":
+                _viol(ctx, "batch-spec", f"{name}: pick {k} (design {i}) does not maximise the acquisition values of "
+                      f"iteration {k}", case, detail={"rows": rk, "values": vk, "picked": i})
+                break
+            if k + 1 < len(fcalls) and _locate(fcalls[k + 1]["x"], snap["points"]) != rk[:pk] + rk[pk + 1:]:
+                _viol(ctx, "batch-spec", f"{name}: the picked row was not removed from the choices", case,
+                      detail={"rows": rk, "picked": i, "next_rows": _locate(fcalls[k + 1]["x"], snap["points"])})
+                break
+        spec = ctx.ask("specd", core.qvec(v0), str(1 if refined else qeff), core.nats(pos), core.qvec(vq))
+        if spec != "ok" and _spec_tol(v0, 1 if refined else qeff, pos):
+            ctx.count("run_near_tie_info")
+        elif spec != "ok":
+            _viol(ctx, "batch-spec", f"{name}: the queried designs are not a batch of {qeff} distinct maximisers of the "
+                  "recorded acquisition values in non-increasing order", case,
+                  detail={"choices": rows, "values": v0, "queried": queried, "lean": spec})
+        else:
+            model = ctx.ask("optd", core.qvec(v0), str(1 if refined else q))
+            if model not in ("err", "bad-op", "empty"):
+                mp = core.parse_nats(model.split(" ")[0])
+                if mp == pos and not refined:
+                    # whole step through the Lean model `Acq.evaluatingStep`: candidates and the data afterwards
+                    obs = [[] for _ in rows]
+                    for p_, y in zip(pos, np.asarray(Yq, dtype=float)):
+                        obs[p_] = list(y)
+                    old, new = snap["data"], rec["after"]
+                    ans = ctx.ask("step", str(alg.model.input_dim), core.qmat(x0), core.qvec(v0), str(q), core.qmat(obs),
+                                  core.qmat(old["X"]), core.qmat(old["Y"]))
+                    if ans != core.qmat(Xq) + " " + core.qmat(new["X"]) + " " + core.qmat(new["Y"]):
+                        _viol(ctx, "step-model", f"{name}: candidates / training data after the step differ from the "
+                              "Lean model of one evaluating() step", case, kind="F", detail={"lean": ans[:300]})
+                    ctx.count("run_step_model_checked")
+                if mp != pos:
+                    if len(set(v0)) == len(v0):
+                        _viol(ctx, "batch-positions", f"{name}: tie-free values but the batch differs from the model's",
+                              case, kind="F", detail={"impl": pos, "model": mp})
+                    else:
+                        ctx.count("run_tie_order_differs_info")
     if refined:
         return len(act) > 1
     # ---- what reached the model
@@ -993,7 +1018,7 @@ def _check_coupled(ctx, case, name, alg, rec, fcalls, pcalls, adds):
         _viol(ctx, "sample-count", f"{name}: sample_count advanced by {rec['sample_count'] - snap['sample_count']} "
               f"for {len(queried)} evaluations", case, kind="F")
     ctx.count("run_batch_%d" % len(queried))
-    return len(queried) < len(act) and len(set(v0)) >= 2
+    return len(queried) < len(act) and len(set(own)) >= 2
 
 
 def _thompson_batch(ctx, case, name, alg, rec, fcalls, queried, objs):
@@ -1002,8 +1027,8 @@ def _thompson_batch(ctx, case, name, alg, rec, fcalls, queried, objs):
     loops maximises the values of *that* call, and the final batch is the top-q of the per-call maxima."""
     snap, q, m = rec["snap"], case["batch"], alg.m
     if not rec["opt"] or rec["opt"][0]["name"] != "optimize_decoupled_acqf_discrete":
-        _viol(ctx, "no-acquisition", f"{name}: evaluating() did not call the decoupled optimiser", case, kind="F")
-        return None
+        ctx.count("optimiser-bypassed_info")   # the route is not part of the property
+        return "skip"
     out = rec["opt"][0]["out"]
     avals = [float(v) for v in np.asarray(out[1], dtype=float).reshape(-1)]
     if _locate(out[0], snap["points"]) != queried or [int(o) for o in np.asarray(out[2]).reshape(-1)] != objs:
@@ -1014,9 +1039,8 @@ def _thompson_batch(ctx, case, name, alg, rec, fcalls, queried, objs):
     for j in range(m):
         cj = [c for c in fcalls if c["j"] == j]
         if len(cj) != min(q, len(snap["active"])):
-            _viol(ctx, "no-acquisition", f"{name}: objective {j} consulted {len(cj)} times for batch size {q} and "
-                  f"{len(snap['active'])} choices", case, kind="F")
-            return None
+            ctx.count("optimiser-route-differs_info")   # another route through the acquisition: not a verdict
+            return "skip"
         for k, c in enumerate(cj):
             vals = [float(v) for v in c["v"]]
             rows = _locate(c["x"], snap["points"])
@@ -1058,55 +1082,61 @@ def _thompson_batch(ctx, case, name, alg, rec, fcalls, queried, objs):
 
 
 def _check_decoupled(ctx, case, name, alg, rec, fcalls, pcalls, adds):
+    """One evaluating() of a decoupled algorithm; verdicts against the own table (see `_check_coupled`)."""
     kind = DECOUPLED[name]
     snap = rec["snap"]
     act = snap["active"]
     m = alg.m
     costs = None if alg.costs is None else np.asarray(alg.costs, dtype=float)
-    if kind == "thompson":
-        _th.check_calls(ctx, case, name, fcalls)   # values / mask against Model/Thompson.lean
-        return _check_decoupled_tail(ctx, case, name, alg, rec, fcalls, pcalls, adds, None, None)
     firsts = {}
     for c in fcalls:
         if c["j"] is not None and int(c["j"]) not in firsts:
             firsts[int(c["j"])] = c
-    if sorted(firsts) != list(range(m)):
-        _viol(ctx, "no-acquisition", f"{name}: acquisition not consulted for every objective", case, kind="F",
-              detail={"objectives": sorted(firsts)})
-        return False
-    rows = _locate(firsts[0]["x"], snap["points"])
-    table = []
-    for j in range(m):
-        if _locate(firsts[j]["x"], snap["points"]) != rows:
-            _viol(ctx, "choice-set", f"{name}: the objectives were optimised over different choice lists", case, kind="F")
-            return False
-        table.append([float(v) for v in firsts[j]["v"]])
-    if sorted(rows) != act:
-        _viol(ctx, "choice-set", f"{name}: the optimiser's choices are not the active designs", case, kind="F",
-              detail={"choices": rows, "active": act})
-    if kind == "varcost" and -1 not in rows:
+    consulted = sorted(firsts) == list(range(m))
+    if not consulted:
+        ctx.count("acquisition-bypassed_info")
+    if kind == "thompson":
+        if consulted:
+            _th.check_calls(ctx, case, name, fcalls)   # values / mask against Model/Thompson.lean
+        return _check_decoupled_tail(ctx, case, name, alg, rec, fcalls, pcalls, adds, None, None, consulted)
+    rows = table = None
+    if consulted:
+        rows = _locate(firsts[0]["x"], snap["points"])
+        table = []
         for j in range(m):
-            defv = _defvals(name, kind, snap, rows, j, costs)
-            for i, a, b in zip(rows, table[j], defv):
-                if not _close(a, b):
-                    _viol(ctx, "acq-value", f"{name}: acquisition value of (design {i}, objective {j}) is not "
-                          "cov_jj / cost_j on the pre-step state", case, kind="F",
-                          detail={"design": i, "objective": j, "seen": a, "definition": b})
-                    break
-        i0 = rows[0]
+            if _locate(firsts[j]["x"], snap["points"]) != rows:
+                _viol(ctx, "choice-set", f"{name}: the objectives were optimised over different choice lists", case, kind="F")
+                return False
+            table.append([float(v) for v in firsts[j]["v"]])
+        if sorted(rows) != act:
+            _viol(ctx, "choice-set", f"{name}: the optimiser's choices are not the active designs", case, kind="F",
+                  detail={"choices": rows, "active": act})
+        if kind == "varcost" and all(i in snap["cov"] for i in rows):
+            for j in range(m):
+                defv = _defvals(name, kind, snap, rows, j, costs)
+                for i, a, b in zip(rows, table[j], defv):
+                    if not _close(a, b):
+                        _viol(ctx, "acq-value", f"{name}: acquisition value of (design {i}, objective {j}) is not "
+                              "cov_jj / cost_j on the pre-step state", case, kind="F",
+                              detail={"design": i, "objective": j, "seen": a, "definition": b})
+                        break
+        for j in range(m):
+            _check_rowwise(ctx, case, name, [c for c in fcalls if c["j"] == j], None)
+    if kind == "varcost" and act:
+        i0 = act[0]
+        own00 = _defvals(name, kind, snap, [i0], 0, costs)[0]
         ex = ctx.ask("varcost", core.qmat(snap["cov"][i0]), "0", "none" if costs is None else core.qvec(costs))
-        if ex in ("err", "bad-op") or not _close(table[0][0], float(core.parse_q(ex))):
-            _viol(ctx, "acq-value", f"{name}: value of (design {i0}, objective 0) differs from the Lean definition",
-                  case, kind="F", detail={"seen": table[0][0], "lean": ex})
-    for j in range(m):
-        _check_rowwise(ctx, case, name, [c for c in fcalls if c["j"] == j], None)
-    return _check_decoupled_tail(ctx, case, name, alg, rec, fcalls, pcalls, adds, rows, table)
+        if ex in ("err", "bad-op") or not _close(own00, float(core.parse_q(ex))):
+            _viol(ctx, "acq-value", f"{name}: cov_00 / cost_0 of design {i0} differs from the Lean definition",
+                  case, kind="F", detail={"seen": own00, "lean": ex})
+    return _check_decoupled_tail(ctx, case, name, alg, rec, fcalls, pcalls, adds, rows, table, consulted)
 
 
-def _check_decoupled_tail(ctx, case, name, alg, rec, fcalls, pcalls, adds, rows, table):
+def _check_decoupled_tail(ctx, case, name, alg, rec, fcalls, pcalls, adds, rows, table, consulted=True):
     kind = DECOUPLED[name]
     snap = rec["snap"]
     act = snap["active"]
+    q = case["batch"]
     m = alg.m
     costs = None if alg.costs is None else np.asarray(alg.costs, dtype=float)
     if len(pcalls) != 1:
@@ -1124,13 +1154,57 @@ def _check_decoupled_tail(ctx, case, name, alg, rec, fcalls, pcalls, adds, rows,
         _viol(ctx, "batch-spec", f"{name}: objective indices do not match the queried designs", case,
               detail={"queried": queried, "objs": objs})
         return False
-    nt = _thompson_batch(ctx, case, name, alg, rec, fcalls, queried, objs)  # exact, on the values produced
-    if nt is None:
+    # ---- (R) independent of the route: min(q, |active|·m) distinct (design, objective) pairs
+    qown = min(q, len(act) * m)
+    keys = list(zip(queried, objs))
+    if len(keys) != qown or len(set(keys)) != len(keys):
+        _viol(ctx, "batch-spec", f"{name}: the batch is not {qown} distinct (design, objective) pairs", case,
+              detail={"queried": queried, "objs": objs})
         return False
-    if kind != "thompson":
-        nt = _table_batch(ctx, case, name, alg, rec, rows, table, queried, objs, fcalls, Xq, Yq)
-        if nt is None:
+    nt = len(queried) < len(act) * m
+    if kind == "varcost":
+        # ---- (R) against the own table cov_jj / cost_j of the active designs at entry of evaluating()
+        own = [_defvals(name, kind, snap, act, j, costs) for j in range(m)]
+        opos = [act.index(i) for i in queried]
+        ovals = [own[o][p] for p, o in zip(opos, objs)]
+        spec = ctx.ask("specdec", core.qmat(own), str(qown), core.nats(opos), core.nats(objs), core.qvec(ovals))
+        ncol = len(act)
+        if spec != "ok" and _spec_tol([v for r in own for v in r], qown, [o * ncol + p for p, o in zip(opos, objs)]):
+            ctx.count("run_near_tie_info")
+        elif spec != "ok":
+            _viol(ctx, "not-maximiser-among-active", f"{name}: the queried (design, objective) pairs are not {qown} "
+                  "distinct pairs each maximising cov_jj / cost_j among the active pairs not yet in the batch "
+                  "(non-increasing order)", case,
+                  detail={"queried": queried, "objs": objs, "active": act, "table": own, "lean": spec})
+        if not consulted and spec == "ok":
+            model = ctx.ask("optdec", core.qmat(own), str(q))
+            if model not in ("err", "bad-op", "empty"):
+                mp, mo, _ = model.split(" ")
+                if (core.parse_nats(mp), core.parse_nats(mo)) == (opos, objs):
+                    obs = [[0.0] * len(act) for _ in range(m)]
+                    for p_, o_, y_ in zip(opos, objs, Yq):
+                        obs[o_][p_] = float(y_)
+                    old, new = snap["data"], rec["after"]
+                    ans = ctx.ask("decstep", str(alg.model.input_dim), str(m), core.qmat(snap["points"][act]),
+                                  core.qmat(own), str(q), core.qmat(obs), core.qmats(old["X"]), core.qmat(old["Y"]))
+                    exp = " ".join([core.qmat(Xq), core.nats(objs), core.qmats(new["X"]), core.qmat(new["Y"])])
+                    if ans != exp:
+                        _viol(ctx, "step-model", f"{name}: candidates / per-objective training data after the step "
+                              "differ from the Lean model of one decoupled evaluating() step", case, kind="F",
+                              detail={"lean": ans[:300]})
+                    ctx.count("run_step_model_checked")
+        nt = nt and len(set(v for r in own for v in r)) >= 2
+    if consulted:
+        # ---- cross-checks on the values the acquisition object produced
+        t = _thompson_batch(ctx, case, name, alg, rec, fcalls, queried, objs)  # exact, per optimiser iteration
+        if t is None:
             return False
+        if kind != "thompson":
+            t2 = _table_batch(ctx, case, name, alg, rec, rows, table, queried, objs, fcalls, Xq, Yq)
+            if t2 is None:
+                return False
+        elif t != "skip":
+            nt = bool(t)
     return _decoupled_data(ctx, case, name, alg, rec, pcalls, adds, queried, objs, Xq, Yq, costs) and nt
 
 
